@@ -8,6 +8,9 @@ import (
 	"sort"
 	"strings"
 	"time"
+
+	dproto "github.com/janelia-flyem/dvid/datatype/common/proto"
+	pb "google.golang.org/protobuf/proto"
 )
 
 func init() { register("C16", runC16) }
@@ -118,7 +121,7 @@ func maskTimes(v interface{}) interface{} {
 		}
 		return o
 	case []interface{}:
-		var o []interface{}
+		o := []interface{}{}
 		for _, e := range x {
 			o = append(o, maskTimes(e))
 		}
@@ -409,16 +412,19 @@ func runC16(c *Ctx) {
 						s.log("DELETE key/%d -> %d", id, r.Code)
 						c.Count("delete")
 					default:
-						// batch
-						m := map[string]interface{}{}
+						// batch (protobuf KeyValues), through the same merge rules
+						kvs := &dproto.KeyValues{}
+						desc := ""
 						for j := 0; j < 2; j++ {
 							id := s.ids[s.r.Intn(len(s.ids))]
 							f := njFields[s.r.Intn(len(njFields))]
-							m[fmt.Sprint(id)] = map[string]interface{}{"bodyid": id, f: genNJValue(s.r, f)}
+							val, _ := json.Marshal(map[string]interface{}{"bodyid": id, f: genNJValue(s.r, f)})
+							kvs.Kvs = append(kvs.Kvs, &dproto.KeyValue{Key: fmt.Sprint(id), Value: val})
+							desc += string(val) + " "
 						}
-						body, _ := json.Marshal(m)
+						body, _ := pb.Marshal(kvs)
 						r := Post("node/"+s.head+"/nj/keyvalues?u=bob", body)
-						s.log("POST keyvalues %s -> %d", string(body), r.Code)
+						s.log("POST keyvalues (protobuf) %s-> %d", desc, r.Code)
 						c.Count("keyvalues")
 					}
 				}
